@@ -96,7 +96,10 @@ def state_bare_scaling(a, us1, us2):
 VAL = {"density": 2.5, "D": 1.5, "kf": 0.75, "kr": 0.25, "vol": 8.0, "state": [3.0, 1.0, 4.0, 1.5], "dt": 0.125, "ts": [0.0, 2.0], "tmax": 1.5, "itv": 0.5}
 
 
-def script_dict(level_units, explicit=False):
+FOREIGN = "G"      # explicit quantities of mode 2 are written in this system (m, ms, mol) whatever surrounds them
+
+
+def script_dict(level_units, explicit=False, graph=False):
     """One physical system (all magnitudes given in SI-coherent 'm, s, mol' numbers VALSI) described with the units
     system U declared at `level` and bare numbers re-scaled to U; other levels inherit. level_units: dict level -> key."""
     def u(level):
@@ -109,10 +112,11 @@ def script_dict(level_units, explicit=False):
         return "A"       # the package default (µm, s, molecule)
 
     def num(x_si, dim, chain, expl=False):
-        us = eff(chain)
+        us = eff(chain) if expl != 2 else FOREIGN
         v = x_si / F(us, dim)
         if expl:
-            return "%r %s" % (v, str(Units(SYS[us], UnitsDimensions(*dim))))
+            txt = str(Units(SYS[us], UnitsDimensions(*dim)))
+            return ("%r %s" % (v, txt)) if txt else v
         return v
 
     def decl(level):
@@ -125,7 +129,12 @@ def script_dict(level_units, explicit=False):
     reactions = [dict({"eq": "A + B -> B", "k+": num(SI["kr"], (3, -1, -1), re_chain, explicit), "k-": 0}, **decl("reaction")),
                  dict({"eq": "A -> B", "k+": num(SI["kf"], (0, -1, 0), ["network", "system", "script"], explicit)})]
     network = dict({"species": species, "reactions": reactions}, **decl("network"))
-    space = dict({"type": "grid", "w": 2, "h": 1, "d": 1, "cell_volume": num(SI["vol"], (3, 0, 0), spc_chain, explicit)}, **decl("space"))
+    if graph:
+        h = SI["vol"] ** (1.0 / 3.0)
+        space = dict({"type": "graph", "nodes": [{"volume": num(SI["vol"], (3, 0, 0), spc_chain, explicit), "environment": 0} for _ in range(2)],
+                      "edges": [{"nodes": [0, 1], "surface": num(h * h, (2, 0, 0), spc_chain, explicit), "distance": num(h, (1, 0, 0), spc_chain, explicit)}]}, **decl("space"))
+    else:
+        space = dict({"type": "grid", "w": 2, "h": 1, "d": 1, "cell_volume": num(SI["vol"], (3, 0, 0), spc_chain, explicit)}, **decl("space"))
     us_state = eff(sys_chain)
     system = dict({"network": network, "space": space,
                    "state": {"value": [x / F(us_state, (0, 0, 1)) for x in SI["state"]], "units": str(Units(SYS[us_state], UnitsDimensions(0, 0, 1)))}}, **decl("system"))
@@ -139,7 +148,7 @@ def physical_content(script):
     """SI values of every dimensioned field of a script"""
     s = script.system
     sp, re = s.network.species, s.network.reactions
-    return {"density": si(sp[0].density), "D_A": si(sp[0].D), "D_B": si(sp[1].D), "k0": si(re[0].kf), "k1": si(re[1].kf), "vol": si(s.space.cell_vol),
+    return {"density": si(sp[0].density), "D_A": si(sp[0].D), "D_B": si(sp[1].D), "k0": si(re[0].kf), "k1": si(re[1].kf), "vol": si(s.space.get_cell_vol(0)),
             "state": [si(s.state.get_at(i)) for i in range(4)], "dt": si(script.time_step), "ts": [si(script.t_sample.get_at(i)) for i in range(2)],
             "tmax": si(script.t_max), "itv": si(script.sampling_interval)}
 
@@ -158,14 +167,14 @@ def same_content(a, b):
 LEVELS = ["script", "system", "network", "space", "species", "reaction"]
 
 
-def nesting_invariance(lv1, u1, lv2, u2, explicit):
+def nesting_invariance(lv1, u1, lv2, u2, explicit, graph=0):
     """declaring units system U at ANY level (others inheriting) with bare numbers re-scaled, or writing explicit unit
     strings, describes the same physical script"""
-    d0, SI = script_dict({})
+    d0, SI = script_dict({}, False, bool(graph))
     ref = physical_content(rdscript_from_dict(d0))
     lu = {LEVELS[lv1 % 6]: KEYS[u1 % 11]}
     lu[LEVELS[lv2 % 6]] = KEYS[u2 % 11]
-    d1, _ = script_dict(lu, bool(explicit))
+    d1, _ = script_dict(lu, explicit, bool(graph))
     got = physical_content(rdscript_from_dict(d1))
     want = {"density": SI["density"], "D_A": SI["D"], "D_B": SI["D"] / 2, "k0": SI["kr"], "k1": SI["kf"], "vol": SI["vol"], "state": SI["state"], "dt": SI["dt"], "ts": SI["ts"],
             "tmax": SI["tmax"], "itv": SI["itv"]}
@@ -173,7 +182,8 @@ def nesting_invariance(lv1, u1, lv2, u2, explicit):
 
 
 # ---- (4) what reaches the engine, re-expressed in SI, does not depend on the description; outputs are scaled back ----------
-DIMS_ABI = {"state": (0, 0, 1), "vol": (3, 0, 0), "D": (2, -1, 0), "t_sample": (0, 1, 0), "interval": (0, 1, 0), "t_max": (0, 1, 0), "dt": (0, 1, 0)}
+DIMS_ABI = {"state": (0, 0, 1), "vol": (3, 0, 0), "D": (2, -1, 0), "t_sample": (0, 1, 0), "interval": (0, 1, 0), "t_max": (0, 1, 0), "dt": (0, 1, 0),
+            "edge_sfc": (2, 0, 0), "edge_dst": (1, 0, 0)}
 
 
 def abi_in_si(script, option, engine_us_key):
@@ -185,22 +195,24 @@ def abi_in_si(script, option, engine_us_key):
     eng = UnitsSystem(space=SYS[engine_us_key]["space"], time=SYS[engine_us_key]["time"], quantity="molecule" if option in ("gillespie", "tauleap") else SYS[engine_us_key]["quantity"])
     out = {}
     for k, dim in DIMS_ABI.items():
+        if k not in named:
+            continue
         f = si_factor(eng, UnitsDimensions(*dim))
         v = named[k]
         out[k] = [x * f for x in v] if isinstance(v, list) else v * f
     # rate constants: [env][reaction] with reactions (f0, r0, f1, r1): orders 2, 1(reverse of A+B->B is B -> A+B: order 1), 1, 1
     kdims = [(3, -1, -1), (0, -1, 0), (0, -1, 0), (0, -1, 0)]
     out["k"] = [x * si_factor(eng, UnitsDimensions(*kdims[j % 4])) for j, x in enumerate(named["k"])]
-    out["ints"] = [named[k] for k in ("w", "h", "d", "n_species", "n_reactions", "n_env", "chstt", "env", "sub", "sto", "seed")]
+    out["ints"] = [named.get(k) for k in ("w", "h", "d", "n_nodes", "n_edges", "edge_i", "edge_j", "n_species", "n_reactions", "n_env", "chstt", "env", "sub", "sto", "seed")]
     return out
 
 
-def abi_invariance(lv, u, eu, option_k, explicit):
+def abi_invariance(lv, u, eu, option_k, explicit, graph=0):
     """two descriptions of the same physical script, simulated with output units E: the arrays handed to the engine agree in SI"""
     option = ["euler", "tauleap", "gillespie"][option_k % 3]
     ek = KEYS[eu % 11]
-    d0, _ = script_dict({"script": ek})
-    d1, _ = script_dict({"script": ek, LEVELS[1 + lv % 5]: KEYS[u % 11]}, bool(explicit))
+    d0, _ = script_dict({"script": ek}, False, bool(graph))
+    d1, _ = script_dict({"script": ek, LEVELS[1 + lv % 5]: KEYS[u % 11]}, explicit, bool(graph))
     d0["seed"] = d1["seed"] = 5
     a = abi_in_si(rdscript_from_dict(d0), option, ek)
     b = abi_in_si(rdscript_from_dict(d1), option, ek)
@@ -217,7 +229,8 @@ def abi_invariance(lv, u, eu, option_k, explicit):
             return False
     # and they are the physical values themselves
     want = physical_content(rdscript_from_dict(d0))
-    return all(close(p, q) for p, q in zip(a["state"], want["state"])) and close(a["vol"], want["vol"]) and close(a["dt"], want["dt"]) and close(a["t_max"], want["tmax"]) \
+    vol0 = a["vol"][0] if isinstance(a["vol"], list) else a["vol"]
+    return all(close(p, q) for p, q in zip(a["state"], want["state"])) and close(vol0, want["vol"]) and close(a["dt"], want["dt"]) and close(a["t_max"], want["tmax"]) and close(a["interval"], want["itv"]) \
         and all(close(p, q) for p, q in zip(a["t_sample"], want["ts"])) and close(a["D"][0], want["D_A"]) and close(a["k"][0], want["k0"]) and close(a["k"][2], want["k1"])
 
 
